@@ -104,6 +104,18 @@ CHECKS["C09"] = dict(
     note="Bound: 3-call histories, one faulty call, pool sequences of 6 (thorough 7) actions. " + NETNOTE,
     design="3 (C09)", technique=CH)
 
+CHECKS["C02"] = dict(
+    text="Bounded symbolic execution of the request-building paths. Where the key is not hashed (delete, delete_many, incr, "
+         "decr, touch, _store_cmd for the six verbs through a non-hashing Mapping) key, prefix and value bytes are fully "
+         "symbolic and the bytes handed to sendall() must equal the independently built canonical command, or the call must "
+         "raise MemcacheIllegalInputError with nothing connected or sent. At the dict-building sites keys are "
+         "solver-enumerated over a 12-class alphabet and the wire is parsed by an independent strict memcached grammar; "
+         "multi-key calls (also 900 KB / 6000-key ones) must send nothing when one member is illegal. Integer arguments: "
+         "symbolic 0..99, protocol boundaries, non-integers rejected. All shards exhaust.",
+    note="Bound: keys <= 2 (3) symbolic bytes, prefix <= 1 (2), values <= 3 (4); 12-class alphabet at hashing sites. The strict "
+         "grammar and its builder are validated at setup. Trusted: z3, CrossHair bytes/int models, vkit/strict.py.",
+    design="3 (C02)", technique=CH)
+
 NOT_YET = {}
 
 NA_REASON_PENDING = "check not built yet in this session (planned; see DESIGN.md section 3)"
